@@ -348,23 +348,59 @@ func c05r7(c *an.Ctx) {
 	sigGet := a.obj("drpcsignal", "(*Signal).Get")
 	sigIsSet := a.obj("drpcsignal", "(*Signal).IsSet")
 	n := 0
+	// path-sensitive: the select is reached only on paths that have seen the term signal unset (wherever that test is
+	// written: in place, in a helper, behind a returned error)
+	isTermTest := func(v ssa.Value) (found bool, setWhenTrue bool) {
+		switch x := v.(type) {
+		case *ssa.Extract:
+			if call, ok := x.Tuple.(*ssa.Call); ok && an.IsCallTo(call.Common(), sigGet) && recvField(call.Common()) == termF.Origin() && x.Index == 1 {
+				return true, true
+			}
+		case *ssa.Call:
+			if an.IsCallTo(x.Common(), sigIsSet) && recvField(x.Common()) == termF.Origin() {
+				return true, true
+			}
+		}
+		return false, false
+	}
+	learn := func(st string, v ssa.Value, val bool) (string, bool) {
+		if ok, _ := isTermTest(v); ok && !val {
+			return addTag(st, "T"), true
+		}
+		return st, true
+	}
+	flow := &an.Flow{Fn: af, Inline: an.InlineSamePackage(af), Init: []string{""},
+		Branch: func(st string, br *ssa.If, idx int) (string, bool) {
+			cond, neg := an.StripNot(br.Cond)
+			return learn(st, cond, (idx == 0) != neg)
+		},
+		OnFact: learn,
+	}
+	res := flow.Run()
+	if res.Blowup {
+		c.Undecided("acquireSemaphore: state space too large")
+		return
+	}
 	an.Instrs(af, func(in ssa.Instruction) {
 		sel, ok := in.(*ssa.Select)
-		if !ok || !sel.Blocking {
+		if !ok || !sel.Blocking || !res.Reachable(in.Block()) {
+			return
+		}
+		// only the select that can take the semaphore matters
+		takes := false
+		for _, stt := range sel.States {
+			if stt.Dir == types.SendOnly {
+				takes = true
+			}
+		}
+		if !takes {
 			return
 		}
 		n++
-		tested := false
-		for _, g := range an.GuardsOf(in.Block()) {
-			switch x := g.Cond.(type) {
-			case *ssa.Extract:
-				if call, ok := x.Tuple.(*ssa.Call); ok && an.IsCallTo(call.Common(), sigGet) && recvField(call.Common()) == termF.Origin() && x.Index == 1 && !g.True {
-					tested = true
-				}
-			case *ssa.Call:
-				if an.IsCallTo(x.Common(), sigIsSet) && recvField(x.Common()) == termF.Origin() && !g.True {
-					tested = true
-				}
+		tested := true
+		for _, st := range res.Before(in) {
+			if !hasTag(st, "T") {
+				tested = false
 			}
 		}
 		c.Check(tested, "acquireSemaphore | term tested before the blocking select", c.At(in), "", "on a terminated manager the select may pick the semaphore case (it is free) and a stream is created on a dead connection instead of returning the cause")
